@@ -635,4 +635,9 @@ mod tests {
         validate_blob(share_signer_forbidden, with_signer, app_signer_allowed).unwrap_err();
         validate_blob(share_signer_forbidden, with_signer, app_unknown).unwrap_err();
     }
+
+    #[cfg(lumina_verif)]
+    mod verif_native {
+        include!(concat!(env!("LUMINA_VERIF_DIR"), "/native/types/blob_arith.rs"));
+    }
 }
